@@ -436,3 +436,5 @@ def run(ctx, cfg=CFG):
     r3_precedence(ctx, cfg)
     r4_dirty(ctx, cfg)
     r5_hash_index(ctx, cfg)
+    from . import c04
+    c04.r5_latest_wins(ctx, c04.CFG, rule="C05.R6")
